@@ -236,7 +236,8 @@ class RandomLineAccessFile(BaseRandomLineAccessFile[str]):
         """
 
         if self.file is None:
-            self.file = open(self.path_to, "r")
+            # newline="\n": only "\n" ends a line and nothing is translated (the offsets index is made in binary mode)
+            self.file = open(self.path_to, "r", newline="\n")
             self._opened_in_process_with_id = os.getpid()
 
         return self
